@@ -1118,10 +1118,19 @@ class Elemwise(Blockwise):
         # Pad index to full length
         full_index = index + (slice(None),) * (len(out_ind) - len(index))
 
+        # ``where``/``out`` arrays broadcast against the inputs, so they take the
+        # same slice. With ``where=True`` the ``out`` operand is only the
+        # placeholder ``handle_out`` replaced (see ``dependencies``): drop it, as
+        # ``_lower`` does, or its full shape would no longer broadcast.
+        if self.where is True:
+            extra = []
+        else:
+            extra = [self.where, self.out]
+
         # Build sliced inputs
         new_args = []
-        for arg in self.elemwise_args:
-            if is_scalar_for_elemwise(arg):
+        for arg in [*self.elemwise_args, *extra]:
+            if arg is None or is_scalar_for_elemwise(arg):
                 new_args.append(arg)
             else:
                 # Map output slice to this input's dimensions
@@ -1165,12 +1174,17 @@ class Elemwise(Blockwise):
                 sliced_arg = new_collection(arg)[tuple(arg_slices)]
                 new_args.append(sliced_arg.expr)
 
+        if extra:
+            *new_args, new_where, new_out = new_args
+        else:
+            new_where, new_out = True, None
+
         return Elemwise(
             self.op,
             self.operand("dtype"),
             self.operand("name"),
-            self.where,
-            self.out,
+            new_where,
+            new_out,
             self.operand("_user_kwargs"),
             *new_args,
         )
